@@ -374,8 +374,9 @@ def do_step(W, step):
         else:
             kw = {'child_attrs_all': rng.choice((dict(nillable=False), dict(min_occurs=1)))}
         W.log.append((step, op, c, repr(kw)))
-        new = W.pool[c].customize(**kw)
         name = W.fresh('V')
+        # a variant whose children differ is a different XSD type: the documented use is to name it
+        new = W.pool[c].customize(type_name='%s_%sh%d' % (W.pool[c].get_type_name(), name, W.hist_id), **kw)
         W.add(name, new, 'complex', parents=[c], decl=list(W.decl[c]), base=W.base.get(c))
         return op, name, set(), {'requested': kw, 'parent': c}
     if op in ('array', 'array_unwrapped', 'iterable'):
